@@ -19,19 +19,21 @@ open HalmosVerif.Props.C01 (exCode exEnv exI exI_std exP exW exF0 exR exOracle e
 
 /-- **C10.flagged.** (the contrapositive packaging of `C02.complete`) -/
 theorem flagged {s : Simp} (hs : SimpSound s) {o : Oracle} (ho : OracleSound o) (cfg : Cfg) (env : Env)
-    (code : List Nat) (fuel : Nat) (p : Evm.Params) (w : Evm.World) (I : Interp) (hI : I.Std) (f0 : Evm.Frame)
+    (code : List Nat) (fuel : Nat) (p : Evm.Params) (w : Evm.World) (hmem : cfg.maxMem + 32 ≤ p.memLimit)
+    (I : Interp) (hI : I.Std) (f0 : Evm.Frame)
     (hR0 : R I env code p initState f0) (n : Nat) (w' : Evm.World) (h : Evm.Halt)
     (hex : Evm.exec p n w f0 = some (w', h)) (hne : h ≠ .stackOverflow)
     (hb : (run s o cfg env code fuel).boundedLoops = []) (hd : (run s o cfg env code fuel).depthCut = false)
     (hf : (run s o cfg env code fuel).outOfFuel = false)
     (herr : ∀ e ∈ (run s o cfg env code fuel).ends, Sat I e.st.path →
       (∀ r, e.out ≠ .stuck r) ∧ e.tag = .normal) :
-    ∃ e ∈ (run s o cfg env code fuel).ends, Sat I e.st.path ∧ e.out = .halt h ∧ e.tag = .normal := by
-  rcases C02.complete hs ho cfg env code fuel p w I hI f0 hR0 n w' h hex hne with
+    ∃ e ∈ (run s o cfg env code fuel).ends, Sat I e.st.path ∧ e.tag = .normal ∧
+      ∃ h0, e.out = .halt h0 ∧ haltWith h0 (e.data.map (·.eval I)) = h := by
+  rcases C02.complete hs ho cfg env code fuel p w hmem I hI f0 hR0 n w' h hex hne with
     ⟨e, hm, hsat, hc⟩ | hb' | hd' | hf'
   · obtain ⟨hns, htag⟩ := herr e hm hsat
-    rcases hc with ⟨ho', _⟩ | ⟨r, hr⟩ | ht
-    · exact ⟨e, hm, hsat, ho', htag⟩
+    rcases hc with ⟨h0, ho', hw, _⟩ | ⟨r, hr⟩ | ht
+    · exact ⟨e, hm, hsat, htag, h0, ho', hw⟩
     · exact absurd hr (hns r)
     · exact absurd htag ht
   · exact absurd hb hb'
@@ -152,7 +154,8 @@ example : (run foldSimp exOracle { depth := 5 } exEnv loopCode 1000).depthCut = 
 
 /-- `flagged` on the branching program of Props.C01 (no flag, no error end state): the input `x = 42` is covered by an
     end state reporting exactly the reference outcome -/
-example : ∃ e ∈ exRes.ends, Sat exI e.st.path ∧ e.out = .halt .invalidOpcode ∧ e.tag = .normal := by
+example : ∃ e ∈ exRes.ends, Sat exI e.st.path ∧ e.tag = .normal ∧
+    ∃ h0, e.out = .halt h0 ∧ haltWith h0 (e.data.map (·.eval exI)) = .invalidOpcode := by
   have hex : ∃ w', Evm.exec exP 10 exW exF0 = some (w', .invalidOpcode) := by
     have : (Evm.exec exP 10 exW exF0).map (·.2) = some .invalidOpcode := by decide +kernel
     match h : Evm.exec exP 10 exW exF0, this with
@@ -165,14 +168,14 @@ example : ∃ e ∈ exRes.ends, Sat exI e.st.path ∧ e.out = .halt .invalidOpco
     obtain ⟨h1, h2⟩ := this e hm
     refine ⟨fun r hr => ?_, h2⟩
     rw [hr] at h1; cases h1
-  exact flagged foldSimp_sound oracleSound_unknown {} exEnv exCode 100 exP exW exI exI_std exF0 exR 10 w'
+  exact flagged foldSimp_sound oracleSound_unknown {} exEnv exCode 100 exP exW C01.exMem exI exI_std exF0 exR 10 w'
     .invalidOpcode hex (by decide) (by decide +kernel) (by decide +kernel) (by decide +kernel)
     (fun e hm _ => hall e hm)
 
 /-- `concrete_loops_uncut`: `PUSH1 1; PUSH1 4; JUMPI; STOP; JUMPDEST; STOP` at the JUMPI with `--loop 0` -/
 example : (step foldSimp exOracle { loop := 0 } exEnv [0x60, 1, 0x60, 5, 0x57, 0x00, 0x5b, 0x00]
-      ⟨4, [.bv 256 (.con 5), .bv 256 (.con 1)], [], [], []⟩).bounded = [] :=
-  (concrete_loops_uncut (cfg := { loop := 0 }) (st := ⟨4, [.bv 256 (.con 5), .bv 256 (.con 1)], [], [], []⟩)
+      ⟨4, [.bv 256 (.con 5), .bv 256 (.con 1)], [], [], [], []⟩).bounded = [] :=
+  (concrete_loops_uncut (cfg := { loop := 0 }) (st := ⟨4, [.bv 256 (.con 5), .bv 256 (.con 1)], [], [], [], []⟩)
     (sz := 256) (target := 5) rfl rfl rfl true (Or.inr ⟨256, 1, rfl, rfl⟩)).1
 
 end HalmosVerif.Props.C10
